@@ -325,6 +325,8 @@ def lateral_alias(c: dict) -> bool:
     """a step gives an existing column name a new meaning (select item / withColumn / fillna under the same name):
     when the optimizer merges blocks, references to the *input* column of that name are resolved to the new alias"""
     cols = list(c["schema"])
+    if sum(1 for s in c["steps"] if s["k"] == "dropna") >= 2:
+        return True  # each dropna defines the helper column num_nulls: the second one redefines it
     for s in c["steps"]:
         k = s["k"]
         if k == "select":
@@ -369,6 +371,8 @@ def order_key_dropped(c: dict) -> bool:
             if k == "drop" and set(s["ns"]) & keys:
                 return True
             if k == "toDF":
+                return True
+            if k == "unpivot" and not keys <= set(s["ids"]):
                 return True
     return False
 
